@@ -164,6 +164,10 @@ class CacheEngine(Engine):
             if r.random() < 0.08:
                 ops.append({'op': 'restart'})
                 continue
+            if ctype != 'mem' and r.random() < 0.06:
+                # an interrupted write / damaged entry files between calls (every entry file emptied or truncated)
+                ops.append({'op': 'damage_all', 'mode': r.choice(['empty', 'half', 'minus1'])})
+                continue
             mi = r.randrange(nm)
             m = methods[mi]
             binding = {}
@@ -339,6 +343,15 @@ class CacheEngine(Engine):
                 obj = build()
                 obs.append(o)
                 continue
+            if op['op'] == 'damage_all':
+                n = 0
+                for fp in d.rglob('*.json'):
+                    size = fp.stat().st_size
+                    os.truncate(fp, {'empty': 0, 'half': size // 2, 'minus1': max(0, size - 1)}[op['mode']])
+                    n += 1
+                o['damaged'] = n
+                obs.append(o)
+                continue
             m = scn['methods'][op['m']]
             kw = {k: v for k, v in op['kw']}
             if op.get('force_cache'):
@@ -488,6 +501,7 @@ class CacheEngine(Engine):
             discs.append({'prop': 'C16', 'inv': inv, 'op': i, 'msg': msg, 'detail': detail})
 
         entries = {}
+        damaged_any = False
         stats = {'hits_other_spelling': 0, 'forced': 0, 'only_cache': 0, 'stored': 0, 'fired': {}}
         last_spelling = {}
         states = []
@@ -496,6 +510,12 @@ class CacheEngine(Engine):
                 stats['fired']['restart'] = stats['fired'].get('restart', 0) + 1
                 if ctype == 'mem':
                     entries.clear()
+                continue
+            if op['op'] == 'damage_all':
+                if o.get('damaged'):
+                    stats['fired']['damage_all'] = stats['fired'].get('damage_all', 0) + 1
+                    entries.clear()      # nothing intact is stored any more: every binding has to be recomputed, never returned damaged
+                    damaged_any = True
                 continue
             m = scn['methods'][op['m']]
             binding = {k: v for k, v in op['binding'].items() if k not in m['ignore']}
@@ -545,7 +565,7 @@ class CacheEngine(Engine):
             last_spelling[key] = spelling
             states.append(V.digest(sorted(map(str, entries)))[:12])
         files = obs[-1].get('files', [])
-        if ctype != 'mem':
+        if ctype != 'mem' and not damaged_any:
             if len(files) != len(entries):
                 d('I-entries', len(scn['ops']), 'number of cache entries on disk differs from the number of distinct (method, version, binding)', files=len(files), entries=len(entries))
         return discs, stats, states
